@@ -78,6 +78,16 @@ class _FnScan(ast.NodeVisitor):
                     self.site(n, "str.join of a set", n.args[0].args[1])
                 elif isinstance(f, ast.Attribute) and f.attr == "pop" and not n.args and self.is_set(f.value):
                     self.site(n, "set.pop()", f.value)
+                # a set handed to a parameter declared as an ordered iterable (the callee will iterate it)
+                callee = f.attr if isinstance(f, ast.Attribute) else (f.id if isinstance(f, ast.Name) else None)
+                target = FUNCS.get((self.modname, callee))
+                if target is not None and callee not in ORDER_FREE_CONSUMERS:
+                    params = [a for a in target.args.posonlyargs + target.args.args if a.arg not in ("self", "cls")]
+                    for i, a in enumerate(n.args):
+                        if i < len(params) and params[i].annotation is not None and self.is_set(a):
+                            ann = ast.unparse(params[i].annotation)
+                            if ann.startswith(("Iterable", "Sequence", "list", "List", "Collection", "tuple", "Tuple")):
+                                self.site(n, f"set passed to the ordered-iterable parameter `{params[i].arg}` of {callee}()", a)
             elif isinstance(n, ast.Starred) and self.is_set(n.value):
                 self.site(n, "star-unpacking of a set", n.value)
         return self.sites
@@ -120,8 +130,16 @@ def set_typed_fields(modnames):
     return out
 
 
+FUNCS: dict = {}
+
+
 def scan_modules(modnames):
     SET_FIELDS.update(set_typed_fields(modnames))
+    for m in modnames:
+        mod = extract.get_module(m)
+        for node in ast.walk(mod.tree):
+            if isinstance(node, (ast.FunctionDef, ast.AsyncFunctionDef)):
+                FUNCS.setdefault((m, node.name), node)
     sites = []
     for m in modnames:
         mod = extract.get_module(m)
